@@ -67,27 +67,44 @@ def confirm(agent_wt, sid):
     return 0
 
 
-def run(sid, props):
+def run(sid, props, in_place=False):
+    """Default: apply the patch in a scratch worktree and point the checks at it (VERIF_REPO), so that /repo is not disturbed and
+    several seeds can be evaluated in parallel; --in-place applies it to /repo itself and undoes it afterwards (the official way)."""
     dst = os.path.join(VERIF, 'seeded', sid)
     meta = json.load(open(os.path.join(dst, 'meta.json')))
     if not props:
         props = [meta['property']]
-    rc, out = sh('git -C /repo status --porcelain --untracked-files=no')
-    assert out.strip() == '', '/repo is dirty: ' + out
-    rc, out = sh('git -C /repo apply %s' % os.path.join(dst, 'patch.diff'))
-    assert rc == 0, out
+    env = {}
+    if in_place:
+        rc, out = sh('git -C /repo status --porcelain --untracked-files=no')
+        assert out.strip() == '', '/repo is dirty: ' + out
+        rc, out = sh('git -C /repo apply %s' % os.path.join(dst, 'patch.diff'))
+        assert rc == 0, out
+    else:
+        wt = '/tmp/seedrun_%s' % sid
+        sh('git -C /repo worktree remove --force %s' % wt)
+        rc, out = sh('git -C /repo worktree add -f %s HEAD' % wt)
+        assert rc == 0, out
+        rc, out = sh('git apply %s' % os.path.join(dst, 'patch.diff'), cwd=wt)
+        assert rc == 0, out
+        env = {'VERIF_REPO': wt, 'VERIF_EVIDENCE_DIR': '/tmp/seedrun_%s_ev' % sid}
     results = {}
     try:
         for p in props:
             t0 = time.time()
-            rc, out = sh('./check %s --tier quick' % p, cwd=VERIF, timeout=7200)
+            rc, out = sh('./check %s --tier quick' % p, cwd=VERIF, timeout=7200, env=env)
             lines = [l for l in out.splitlines() if l.startswith(('VIOLATION', 'UNDECIDED', 'KNOWN-FINDING', '  failed', '  replay')) or ' tier=' in l]
             results[p] = {'exit': rc, 'lines': lines[:12], 'wall_s': round(time.time() - t0, 1)}
             print(sid, p, 'exit', rc)
             for l in lines[:12]:
                 print('   ', l[:300])
     finally:
-        sh('git -C /repo checkout -- .')
+        if in_place:
+            sh('git -C /repo checkout -- .')
+        else:
+            sh('git -C /repo worktree remove --force %s' % wt)
+            sh('rm -rf /tmp/seedrun_%s_ev' % sid)
+    meta = json.load(open(os.path.join(dst, 'meta.json')))
     meta.setdefault('check_results', {}).update(results)
     json.dump(meta, open(os.path.join(dst, 'meta.json'), 'w'), indent=1)
     return 0
@@ -96,4 +113,5 @@ def run(sid, props):
 if __name__ == '__main__':
     if sys.argv[1] == 'confirm':
         sys.exit(confirm(sys.argv[2], sys.argv[3]))
-    sys.exit(run(sys.argv[2], sys.argv[3:]))
+    args = [a for a in sys.argv[2:] if a != '--in-place']
+    sys.exit(run(args[0], args[1:], in_place='--in-place' in sys.argv))
